@@ -181,6 +181,34 @@ pub fn families() -> Vec<Box<dyn Family>> {
             },
         ),
         family(
+            "seq_big",
+            "long sequences of mostly unique items (2100..9000 items; thorough up to 70000) with 20..80 swapped / moved blocks so that the choice of Patience anchors matters: repeated calls, another thread, relabelling to u64 — all three algorithms where affordable (LCS: windowed edits only)",
+            false,
+            1,
+            |cfg| if cfg.tiny { 1 } else { cfg.tier.pick(12, 80) },
+            |idx, cfg, out| {
+                let mut rng = Rng::for_case(cfg.seed, "c20.seq_big", idx);
+                let n = if cfg.tiny { 12 } else { *rng.pick(&[2100usize, 4200, 6000, cfg.tier.pick(9000, 70_000)]) };
+                let a: Vec<u32> = (0..n as u32).map(|i| if rng.chance(1, 10) { i % 7 } else { 100 + i }).collect();
+                let mut b = a.clone();
+                let swaps = if cfg.tiny { 1 } else { rng.range(20, 80) };
+                for _ in 0..swaps {
+                    let l = 1 + rng.below(20.min(n / 4));
+                    let i = rng.below(n - 2 * l);
+                    let j = i + l + rng.below((n - i - 2 * l).min(60) + 1);
+                    for k in 0..l {
+                        b.swap(i + k, j + k);
+                    }
+                }
+                out.sample(|| format!("N={} with {} swapped blocks", n, swaps));
+                out.count("big_cases");
+                for alg in [Algorithm::Patience, Algorithm::Myers] {
+                    out.nontrivial(&(alg_name(alg), &a, &b));
+                    seq_case(idx, alg, &a, &b, idx % 2 == 0, out);
+                }
+            },
+        ),
+        family(
             "seq_exh",
             "every ordered pair over {0,1,2} with length <= 4 (thorough <= 5) x 3 algorithms x the same determinism / relabelling checks",
             true,
